@@ -258,6 +258,88 @@ def bitstr_part(ctx, sc):
                            '(s * n drops leading zero bits; outside the listed properties): those are compared with ApplyLib, exactly' % (len(states), devs))
     ctx.sample({'bit string history': states[len(states) // 3]})
 
+
+# ------------------------------------------------------------------------------------ OBJECT IDENTIFIER algebra (spec/Oid.tla)
+def oid_replay(state):
+    from pyasn1.type import univ
+    out = []
+    try:
+        o = univ.ObjectIdentifier(tuple(state['start']))
+        for op in state['hist']:
+            if op['o'] == 'concat':
+                o = o + tuple(op['x'])
+            elif op['o'] == 'rconcat':
+                o = tuple(op['x']) + o
+            else:
+                o = o[op['i']:op['j']]
+        want = state['want']
+        if not isinstance(o, univ.ObjectIdentifier):
+            out.append('result is a %s' % type(o).__name__)
+        elif list(o.asTuple()) != want['arcs'] or list(o) != want['arcs'] or len(o) != len(want['arcs']):
+            out.append('arcs %s, model %s' % (list(o), want['arcs']))
+        else:
+            if str(o) != '.'.join(map(str, want['arcs'])) or o.prettyPrint() != str(o):
+                out.append('text %r' % str(o))
+            if o != univ.ObjectIdentifier(tuple(want['arcs'])) or o != tuple(want['arcs']):
+                out.append('does not compare equal to a fresh object / a tuple with the model arcs')
+            if want['arcs'] and univ.ObjectIdentifier('.'.join(map(str, want['arcs']))) != o:
+                out.append('text form does not read back')
+            s0 = univ.ObjectIdentifier(tuple(state['start']))
+            if bool(s0.isPrefixOf(o)) != want['start_is_prefix'] or bool(o.isPrefixOf(s0)) != want['is_prefix_of_start']:
+                out.append('isPrefixOf: %s/%s, model %s/%s' % (s0.isPrefixOf(o), o.isPrefixOf(s0), want['start_is_prefix'], want['is_prefix_of_start']))
+            for x, (c, i) in zip((0, 6, 999), want['probe']):
+                if (x in o) != c:
+                    out.append('%d in -> %s, model %s' % (x, x in o, c))
+                try:
+                    gi = o.index(x)
+                except ValueError:
+                    gi = -1
+                if gi != i:
+                    out.append('index(%d) -> %s, model %s' % (x, gi, i))
+    except Exception as e:   # noqa
+        out.append('crash %s: %s' % (type(e).__name__, e))
+    return out
+
+
+def oid_part(ctx, sc):
+    maxops = 2 if ctx.quick else 3
+    with open(sc.file('MC_oid.tla'), 'w') as f:
+        f.write("""---- MODULE MC_oid ----
+EXTENDS Oid
+VARIABLE want
+WantOf(s, a) == [arcs |-> a, start_is_prefix |-> IsPrefix(s, a), is_prefix_of_start |-> IsPrefix(a, s),
+                 probe |-> << <<Contains(a, 0), FirstIndex(a, 0)>>, <<Contains(a, 6), FirstIndex(a, 6)>>, <<Contains(a, 999), FirstIndex(a, 999)>> >>]
+MCInit == Init /\\ want = WantOf(start, arcs)
+MCNext == Next /\\ want' = WantOf(start', arcs')
+====
+""")
+    with open(sc.file('MC_oid.cfg'), 'w') as f:
+        f.write('INIT MCInit\nNEXT MCNext\nCONSTANT MaxOps = %d\nINVARIANT TypeOK\nINVARIANT PrefixReflexive\nCHECK_DEADLOCK FALSE\n' % maxops)
+    dump = sc.file('oid.dump')
+    r = tlc.run(sc.file('MC_oid.tla'), sc.file('MC_oid.cfg'), sc, dump=dump, timeout=3000)
+    ctx.add_tlc('Oid machine (histories of <= %d operations)' % maxops, r)
+    if not r.ok:
+        raise core.Machinery('Oid model run failed: %s %s\n%s' % (r.violated, r.errors[:2], r.out[-1500:]))
+    states = list(tlaval.parse_dump(open(dump).read()))
+    os.remove(dump)
+    states.sort(key=lambda s: json.dumps(s, sort_keys=True))
+    res = core.pmap(oid_replay, states, chunksize=512)
+    bad = 0
+    for s, divs in zip(states, res):
+        ctx.evaluations += 1
+        if divs:
+            bad += 1
+            ctx.report('OBJECT IDENTIFIER algebra: %s after %s: %s' % (s['start'], [tuple(sorted(o.items())) for o in s['hist']], '; '.join(divs[:3])),
+                       {'clause': 'OidAlgebra', 'part': 'oid', 'ops': sorted({o['o'] for o in s['hist']})},
+                       {'prop': 'C14', 'kind': 'oid', 'state': s, 'divergences': divs})
+    ctx.traces += len(states) - bad
+    ctx.keys.add(('oid', len(states)))
+    flipped = json.loads(json.dumps(states[len(states) // 2]))
+    flipped['want']['arcs'] = flipped['want']['arcs'] + [1]
+    if not oid_replay(flipped):
+        raise core.Machinery('oid replay self-test failed')
+    ctx.extra['oid'] = '%d histories of spec/Oid.tla replayed into univ.ObjectIdentifier (arcs, text, ==, isPrefixOf, in, index)' % len(states)
+
 def run(ctx):
     with tlc.Scratch('c14') as sc:
         depth = 1 if ctx.quick else 2
@@ -291,6 +373,7 @@ def run(ctx):
             raise core.Machinery('replay self-test failed: a flipped model verdict went unnoticed')
         ctx.extra['replay_selftest'] = 'flipped model verdict detected'
         bitstr_part(ctx, sc)
+        oid_part(ctx, sc)
     ctx.rule = ('every state of the generator machine spec/Constraint.tla: (expression tree of depth <= %d over single value, range, '
                 'size, alphabet, intersection, union, exclusion) x candidate values around every boundary; derivation chains '
                 'T0 -> c1 -> c2; value-producing operations (+ - * // %% neg abs << >> ** ; concatenation, slicing, repetition; '
